@@ -17,15 +17,29 @@ import (
 // s is empty or contains a non-digit.
 func digitsOnly(s *smt.Term) *smt.Term { return smt.IntLe(smt.IntC(0), smt.StrToInt(s)) }
 
-// decimalOf recognises the canonical decimal rendering of a 64-bit unsigned value x
-// (str.from_int(bv2nat(x)), produced by the strconv.AppendUint intrinsic below), optionally
-// preceded by a constant run of '0' characters, and returns x.
+// decimalTerm is the canonical decimal rendering of a 64-bit unsigned value x: an uninterpreted
+// function of x (so no query ever needs str.from_int / bv2nat reasoning, on which cvc5 spends
+// minutes) with the length law 1 <= len <= 20.  Over-approximation: two different values may
+// render to equal strings; what the code under test can learn from a rendering is its
+// emptiness, equality with other strings and — exactly — its strconv.Atoi value (decimalOf).
+func decimalTerm(x *smt.Term) *smt.Term {
+	if x.IsConst() {
+		return smt.StrC(strconv.FormatUint(x.U64(), 10))
+	}
+	d := smt.UF("strconv.decimal", smt.Str, x)
+	smt.AddAxiom(smt.IntLe(smt.IntC(1), smt.StrLen(d)))
+	smt.AddAxiom(smt.IntLe(smt.StrLen(d), smt.IntC(20)))
+	return d
+}
+
+// decimalOf recognises a decimalTerm (produced by the strconv.AppendUint intrinsic below),
+// optionally preceded by a constant run of '0' characters, and returns x.
 func decimalOf(s *smt.Term) (*smt.Term, bool) {
 	if s.Op == "str.++" && len(s.Args) == 2 && s.Args[0].IsConst() && strings.Trim(s.Args[0].S, "0") == "" {
 		s = s.Args[1]
 	}
-	if s.Op == "str.from_int" && s.Args[0].Op == "bv2nat" && s.Args[0].Args[0].Sort.W == 64 {
-		return s.Args[0].Args[0], true
+	if s.Op == "uf" && s.Name == "strconv.decimal" {
+		return s.Args[0], true
 	}
 	return nil, false
 }
@@ -40,14 +54,8 @@ func init() {
 		if !base.IsConst() || base.U64() != 10 {
 			panic(unsupported("strconv.AppendUint with base other than 10"))
 		}
-		var dec *smt.Term
-		if x.IsConst() {
-			dec = smt.StrC(strconv.FormatUint(x.U64(), 10))
-		} else {
-			dec = smt.StrFromInt(smt.BV2Nat(x))
-		}
 		dst, _ := m.sliceBytesTerm(args[0])
-		return m.bytesValue(smt.StrConcat(dst, dec), -1)
+		return m.bytesValue(smt.StrConcat(dst, decimalTerm(x)), -1)
 	}
 	// strconv.Atoi of a decimal rendering (see decimalOf) is exact and needs no string
 	// reasoning: Atoi(dec(x)) = (x, nil) when x <= MaxInt64, otherwise (…, ErrRange).  Every
@@ -81,6 +89,13 @@ func init() {
 			return TupleV{smt.True, &IfaceV{}}
 		}
 		return TupleV{digitsOnly(strArg(args[1])), &IfaceV{}}
+	}
+
+	// math.Float64frombits: an arbitrary float64 determined by the bits.  Over-approximation: an
+	// uninterpreted function (every float, NaN and infinities included, is a possible value), so a
+	// statement proved for it holds for the real bit-cast; a counterexample would not replay.
+	I["math.Float64frombits"] = func(m *Machine, fn *ssa.Function, args []Value) Value {
+		return smt.UF("math.Float64frombits", smt.F64, args[0].(*smt.Term))
 	}
 
 	// bytes.Compare: 0 iff equal, otherwise -1 or +1 (the sign is the lexicographic order of the
